@@ -6,6 +6,8 @@
   Nondeterminism ($currentDate) enters as the inputs `nowDate`, `nowTs`.
   Changes.Changed (a Go map) is modelled by the list of recorded (path, value) pairs in record
   order; the conflict test of `Record` (path tree) is the prefix relation on segment lists.
+  `checkPaths` (the up-front conflict test of `Apply` over the literal paths of the update) is
+  `pathsConflict [] (updatePaths update)`.
 -/
 import Lungo.Model.Match
 import Lungo.Model.Sort
@@ -426,9 +428,40 @@ def resolve (sch : SchemaEval) : Nat → String → Doc → List Doc → Res (Li
 
 def countDollar (s : String) : Nat := (s.toList.filter (· == '$')).length
 
+/-- checkPaths, inner loop: the literal paths of the fields of one operator document, in the order
+    checkPaths visits them: the field key, then — only under the operator key "$rename" and only
+    when the field value is a string — the rename target. -/
+def fieldPaths (op : String) : List (String × V) → List String
+  | [] => []
+  | (key, value) :: r =>
+    (match value with
+     | .str target => if op == "$rename" then [key, target] else [key]
+     | _ => [key]) ++ fieldPaths op r
+
+/-- checkPaths, outer loop: top-level entries whose value is not a document are skipped
+    (`operator.Value.(bson.D)` fails → continue). -/
+def updatePaths : Doc → List String
+  | [] => []
+  | (op, value) :: r =>
+    (match value with
+     | .doc fields => fieldPaths op fields
+     | _ => []) ++ updatePaths r
+
+/-- checkPaths' path tree: `seen` are the paths inserted so far; the next path conflicts iff an
+    inserted path is a segment-wise prefix of it (`node.Load() == true`) or it is a segment-wise
+    prefix of / equal to an inserted one (`rest == PathEnd`) — the test of `record`; otherwise it
+    is inserted. -/
+def pathsConflict (seen : List Path) : List String → Bool
+  | [] => false
+  | path :: r =>
+    let p := splitPath path
+    if seen.any (fun rp => isPrefixOf rp p || isPrefixOf p rp) then true
+    else pathsConflict (seen ++ [p]) r
+
 /-- Apply: returns the updated document and the recorded changes (record order). -/
 def Apply (c : ACtx) (doc : Doc) (update : Doc) (arrayFilters : List Doc) : Res (Doc × List (String × V)) :=
   if update.isEmpty then .error .err else
+  if pathsConflict [] (updatePaths update) then .error .err else
   let rec conds (s : AState) (op : String) : List (String × V) → Res AState
     | [] => .ok s
     | (key, value) :: r =>
